@@ -39,6 +39,7 @@ package task
 // and (second guard) no looked-up value fell outside its enum.
 //@ ghost var anyMissing bool scratch
 //@ ghost var anyBad bool scratch
+//@ ghost var enumPending bool scratch
 //@ func (*Executor).areTaskRequiredVarsSet
 //@   sweep                                                          [C16]
 //@   init anyMissing := false
@@ -54,6 +55,13 @@ package task
 //@   site slices.Contains#1 ghost anyBad := anyBad || !result
 //@   loop 1 invariant anyBad ==> len(notAllowedValuesVars) > 0                                         [C13]
 //@   ensures result == nil ==> !anyBad                                                                 [C13]
+// ... and EVERY required variable that has an enum is compared with it, whatever the type of its value (a number
+// or a boolean from YAML is outside an enum of strings unless its text is listed)
+//@   init enumPending := false
+//@   site (*Vars).Get#1 ghost enumPending := t.Requires.Vars[$i].Enum != nil
+//@   site slices.Contains#1 ghost enumPending := false
+//@   loop 1 invariant !enumPending                                                                     [C13]
+//@   ensures !enumPending                                                                              [C13]
 
 // ---- C01/C02/C03: dependencies ---------------------------------------------------------------------
 // depCallOK(d): a RunTask call made for dependency entry d has returned nil in this invocation.
